@@ -60,7 +60,7 @@ func c16Encoders(c *run.C) {
 	c.ObserveMax("max_writes_per_stream", W)
 	for _, k := range faultPositions(c, W) {
 		for _, cont := range []bool{false, true} {
-			fw := &mon.FailingWriter{K: k}
+			fw := &mon.FailingWriter{K: k, Count: (k + c.Idx/3) % 3}
 			v := cd.NewVisitor(fw, o)
 			errs := 0
 			var first error
